@@ -111,35 +111,48 @@ def validate_events(evf, what, rep, prop, inputs=None):
     execs = split_execs(evf)
     if acc:
         return len(execs), 0, states
-    # isolate: validate each execution separately (cheap: they are short), report each rejected one
+    # isolate the rejected execution, report it, continue with the executions after it
+    # (at most 5 rounds per file: enough to report, bounded cost on a badly broken tree)
     rejected = 0
-    off = 0
-    bad_idx = None
-    for i, e in enumerate(execs):
-        if off <= matched < off + len(e):
-            bad_idx = i
-        off += len(e)
-    todo = list(range(len(execs))) if bad_idx is None else list(range(bad_idx, len(execs)))
-    for i in todo:
-        iso = "%s.x%d.ndjson" % (evf, i)
-        with open(iso, "w") as f:
-            f.writelines(execs[i])
-        acc2, m2, r2 = vlib.validate_trace("QsbrTrace", "cfg/QsbrTrace/trace.cfg", iso, timeout=600)
-        states += r2.distinct
-        if acc2:
-            os.unlink(iso)
-            continue
+    rest = execs
+    cur_matched = matched
+    for rnd in range(5):
+        off = 0
+        bad_idx = None
+        for i, e in enumerate(rest):
+            if off <= cur_matched < off + len(e):
+                bad_idx = i
+                break
+            off += len(e)
+        if bad_idx is None:
+            bad_idx = len(rest) - 1
+            off = sum(len(e) for e in rest[:-1])
+        m2 = cur_matched - off
+        e = rest[bad_idx]
         rejected += 1
-        ev = execs[i][m2].strip() if m2 < len(execs[i]) else "<end>"
-        mine = classify(prop, ev)
-        if mine and rejected <= 5:
+        ev = e[m2].strip() if 0 <= m2 < len(e) else "<end>"
+        if classify(prop, ev):
             os.makedirs(vlib.REPLAYS, exist_ok=True)
-            keep = os.path.join(vlib.REPLAYS, os.path.basename(iso))
-            shutil.copy(iso, keep)
-            rep.violation("%s execution %d: QsbrTrace rejects event %d: %s" % (what, i, m2 + 1, ev),
+            keep = os.path.join(vlib.REPLAYS, "%s_%s_r%d.ndjson" % (prop, os.path.basename(evf)[:-7], rnd))
+            with open(keep, "w") as f:
+                f.writelines(e)
+            gi = len(execs) - len(rest) + bad_idx
+            rep.violation("%s execution %d: QsbrTrace rejects event %d: %s" % (what, gi, m2 + 1, ev),
                           {"trace": keep, "event": ev, "line": m2 + 1,
-                           "schedule": inputs[i] if inputs and i < len(inputs) else None,
+                           "schedule": inputs[gi] if inputs and gi < len(inputs) else None,
                            "replay_cmd": "TRACE=%s tlc -workers 1 -deadlock -config spec/cfg/QsbrTrace/trace.cfg spec/QsbrTrace.tla" % keep})
+        rest = rest[bad_idx + 1:]
+        if not rest:
+            break
+        nxt = "%s.rest%d.ndjson" % (evf, rnd)
+        with open(nxt, "w") as f:
+            for x in rest:
+                f.writelines(x)
+        acc2, cur_matched, r2 = vlib.validate_trace("QsbrTrace", "cfg/QsbrTrace/trace.cfg", nxt, timeout=1500)
+        states += r2.distinct
+        os.unlink(nxt)
+        if acc2:
+            break
     return len(execs), rejected, states
 
 
